@@ -44,13 +44,13 @@ theorem good_all : Good (fuel + 1) ld kd (kw "ALL", id) := by
     (fun rec c tail _ => by simp (decide := true) [pSearchKeyAtom])
   simpa [kw] using this
 
-theorem good_uid (s : NSet) (hs : SetOK s) :
-    Good (fuel + 1) ld kd (kw "UID" ++ sp ++ atom s.text, addF fun f => { f with uidSets := f.uidSets ++ [s] }) := by
-  have := good_atomKey fuel ld kd (str "UID") (sp ++ atom s.text) (addF fun f => { f with uidSets := f.uidSets ++ [s] })
+theorem good_uid (s s' : NSet) (hs : SetReads s s') :
+    Good (fuel + 1) ld kd (kw "UID" ++ sp ++ atom s.text, addF fun f => { f with uidSets := f.uidSets ++ [s'] }) := by
+  have := good_atomKey fuel ld kd (str "UID") (sp ++ atom s.text) (addF fun f => { f with uidSets := f.uidSets ++ [s'] })
     (by decide) (by decide) (by decide) (fun tail _ => sp_stops _ _)
     (fun rec c tail hsep => by
-      simp (decide := true) only [pSearchKeyAtom, List.append_assoc, bind, Except.bind, pSP_sp _ (notEol_text s _ hs),
-        pNumSet_text s tail hs (sep_stops_numset hsep)]
+      simp (decide := true) only [pSearchKeyAtom, List.append_assoc, bind, Except.bind, pSP_sp _ (hs.notEol _),
+        hs.read tail (sep_stops_numset hsep)]
       rfl)
   simpa [kw, List.append_assoc] using this
 
